@@ -3,7 +3,7 @@
 From Coq Require Import List Arith Bool Permutation.
 Import ListNotations.
 Require Import Fggs.Model.SCC Fggs.Proofs.SCC_bounded Fggs.Proofs.SCC_ntgraph.
-Require Import Fggs.Proofs.SCC_checker Fggs.Proofs.SCC_tarjan.
+Require Import Fggs.Proofs.SCC_checker Fggs.Proofs.SCC_tarjan Fggs.Proofs.SCC_unique.
 Require Import Fggs.Model.SCCOrder Fggs.Proofs.SCC_order.
 
 (** nonterminal_graph has an edge X->Y exactly when some rule for X has a rhs edge labelled by
@@ -77,6 +77,27 @@ Theorem C19_tarjan_correct_spec :
      /\ (forall l1 c l2 d u v, cs = l1 ++ c :: l2 -> In d l2 -> In u c -> In v d -> ~ In v (succs g u)).
 Proof. exact tarjan_correct_spec. Qed.
 Print Assumptions C19_tarjan_correct_spec.
+
+(** The specification determines the components: two lists that both satisfy it for the same graph
+    have the same components as vertex sets (only the order of components may differ, within the
+    last clause) ... *)
+Theorem C19_spec_determines_components :
+  forall g cs1 cs2, closed g = true -> scc_ok g cs1 = true -> scc_ok g cs2 = true ->
+    forall c1, In c1 cs1 -> exists c2, In c2 cs2 /\ forall v, In v c1 <-> In v c2.
+Proof.
+  intros g cs1 cs2 Hc H1 H2.
+  exact (spec_unique g cs1 cs2 (proj1 (scc_ok_spec g cs1 Hc) H1) (proj1 (scc_ok_spec g cs2 Hc) H2)).
+Qed.
+Print Assumptions C19_spec_determines_components.
+
+(** ... so whatever the oracle accepts has exactly the components of Tarjan's output as coded. *)
+Theorem C19_accepted_components_are_tarjan :
+  forall g cs', closed g = true -> scc_ok g cs' = true ->
+    exists cs, scc g = Some cs /\
+      (forall c, In c cs -> exists c', In c' cs' /\ forall v, In v c <-> In v c') /\
+      (forall c', In c' cs' -> exists c, In c cs /\ forall v, In v c' <-> In v c).
+Proof. exact scc_ok_components_are_tarjan. Qed.
+Print Assumptions C19_accepted_components_are_tarjan.
 
 (** Tarjan as coded, bounded (kept as an independent in-kernel cross-check of the model and
     the oracle): all 66 067 labelled digraphs on at most 4 vertices, and all
